@@ -47,6 +47,7 @@ properties! {
     "C06" => c06,
     "C07" => c07,
     "C08" => c08,
+    "C09" => c09,
     "C11" => c11,
     "C13" => c13,
     "C16" => c16,
@@ -56,6 +57,7 @@ properties! {
 pub fn probes(ctx: &Ctx, id: &str) -> Vec<Probe> {
     match id {
         "C03" => c03::probes(ctx),
+        "C09" => c09::probes(ctx),
         "C18" => c18::probes(ctx),
         _ => vec![],
     }
